@@ -30,6 +30,9 @@ FLOORS = {"quick": {"firings_checked": 20000, "calls": 20000, "calls_at_expiry_i
                        "auto_restart_cases": 30000, "restart_pending": 80000, "restart_after_fired": 10000,
                        "stops": 60000, "suppressed_by_stop": 20000, "old_expiry_voided": 40000}}
 KEYS = tuple(FLOORS["quick"].keys()) + ("falsy_scalar_args_cases", "big_clock_cases", "long_history_cases", "rational_clock_cases")
+# floors for the situations added with the later rounds of seeded changes (evidence that they were really exercised)
+FLOORS["quick"].update({'rational_clock_cases': 150})
+FLOORS["thorough"].update({'rational_clock_cases': 750})
 
 
 def plan(tier):
